@@ -54,6 +54,9 @@ def gen_cases(seed, tier):
                 elif n_ is not None: rx["params"]["n"] = rng.choice([1, 2, 3])
             for s in spec["x0"]: spec["x0"][s] = U(0.2, 6)
             c["spec"] = spec
+        # a user-held interface simulated repeatedly ("pass an existing interface for speed"): the k-th run integrates the same
+        # equations as the first (seeded change S5_C04: preparing an interface again appended its sparse stoichiometry a second time)
+        if rng.random() < 0.3: c["reuse_interface"] = rng.choice([2, 3])
         cases.append(c)
     return cases
 
@@ -73,8 +76,15 @@ def impl_case(case):
     warnings.simplefilter("ignore")
     spec = _spec_of(case); M = G.build_model(spec); T = np.array(case["times"], dtype=float)
     # the safe interface integrates the same rate equations (it only clips negative rates): S3_C04
-    res = py_simulate_model(T, Model=M, stochastic=False, return_dataframe=True, safe=bool(case.get("safe")))
     names = list(M.get_species_list())
+    if case.get("reuse_interface"):
+        from bioscrape.simulator import ModelCSimInterface, SafeModelCSimInterface
+        I = SafeModelCSimInterface(M) if case.get("safe") else ModelCSimInterface(M)
+        for _ in range(int(case["reuse_interface"])):
+            r_ = py_simulate_model(T, Interface=I, stochastic=False, return_dataframe=False, safe=bool(case.get("safe")))
+        arr = np.asarray(r_.py_get_result()); s2i = M.get_species2index()
+        return {"names": names, "rows": {s_: [float(v) for v in arr[:, s2i[s_]]] for s_ in names}, "time": [float(v) for v in T]}
+    res = py_simulate_model(T, Model=M, stochastic=False, return_dataframe=True, safe=bool(case.get("safe")))
     return {"names": names, "rows": {s: [float(v) for v in res[s]] for s in names}, "time": [float(v) for v in res["time"]]}
 
 def _rate(spec, rx, x, t):
@@ -125,6 +135,9 @@ def _reference(case, names):
 def driver_line(case, r): return None
 def compare(case, r, out): return None
 def oracle(case, r):
+    # LSODA may step a consumed species a hair below zero; a Hill term then evaluates (negative) ** (double) and Cython 3 raises
+    # "Cannot convert 'complex' ..." (DESIGN.md, observations): the state has left the non-negative domain the property is about
+    if isinstance(r, dict) and "Cannot convert 'complex'" in str(r.get("msg", "")) and any(rx["type"] in G.HILL for rx in _spec_of(case)["reactions"]): return None
     if not r or "rows" not in r: return "implementation failed: %s" % json.dumps(r)[:300]
     spec = _spec_of(case); T = case["times"]
     if r["time"] != T: return "time axis: %r is not the requested grid %r" % (r["time"], T)
@@ -144,4 +157,5 @@ def nontrivial(case): return case["family"] in ("dimer", "timedep", "nonlinear",
 def key(case): return json.dumps(case, sort_keys=True)
 def stats(cases):
     from collections import Counter
-    return {"families": dict(Counter(c["family"] for c in cases)), "nonuniform_grids": sum(1 for c in cases if len({round(b - a, 9) for a, b in zip(c["times"], c["times"][1:])}) > 1)}
+    return {"families": dict(Counter(c["family"] for c in cases)), "nonuniform_grids": sum(1 for c in cases if len({round(b - a, 9) for a, b in zip(c["times"], c["times"][1:])}) > 1),
+            "runs_on_a_reused_interface": sum(1 for c in cases if c.get("reuse_interface"))}
